@@ -26,6 +26,7 @@ type PropConfig struct {
 	Bounded     []string `json:"bounded"`     // labels of bounded stand-ins (reported, never counted as proved)
 	Frames      []FrameCheck `json:"frames"`  // program-wide syntactic frame obligations
 	ThoroughVerify []string `json:"thorough_verify"` // functions under contract that are too expensive for the quick tier
+	SlowFactor int `json:"slow_factor"` // budget multiplier for slow_functions (default 5)
 	// PostOnly: function key -> clause-name prefix. The function is verified for this property, but only its
 	// postconditions with that prefix are counted here; the others belong to the property they were written for.
 	PostOnly map[string]string `json:"post_only"`
@@ -66,6 +67,13 @@ type fnResult struct {
 
 // obKey is the stable identity of an obligation for baselines: contract obligations drop
 // the per-return ordinal.
+func slowFactor(cfg PropConfig) int {
+	if cfg.SlowFactor > 0 {
+		return cfg.SlowFactor
+	}
+	return 5
+}
+
 func obKey(o *Oblig) string {
 	switch o.Kind {
 	case "post", "inv-entry", "inv-keep":
@@ -214,7 +222,7 @@ func cmdCheck(args []string) {
 			t1 := time.Now()
 			to := timeout
 			if matchPatterns(j.key, cfg.Slow) {
-				to = 5 * timeout
+				to = slowFactor(cfg) * timeout
 			}
 			vc := P.verify(P.funcs[j.key], to, 4, filepath.Join(scratchDir, "vc-keep-"+*prop), false, skip)
 			results[i] = &fnResult{key: j.key, vc: vc, mode: j.mode, err: vc.err, wall: time.Since(t1)}
@@ -248,7 +256,7 @@ func cmdCheck(args []string) {
 			houdiniTimeoutMs = 4 * savedH
 			to := timeout
 			if matchPatterns(r.key, cfg.Slow) {
-				to = 5 * timeout
+				to = slowFactor(cfg) * timeout
 			}
 			vc2 := P.verify(P.funcs[r.key], to, 4, "", false, skip)
 			houdiniTimeoutMs = savedH
@@ -284,7 +292,7 @@ func cmdCheck(args []string) {
 			}
 			to := timeout
 			if matchPatterns(r.key, cfg.Slow) {
-				to = 5 * timeout
+				to = slowFactor(cfg) * timeout
 			}
 			for _, o := range r.vc.obligs {
 				if o.Status != "unsat" && o.Status != "sat" && o.Status != "skipped" {
